@@ -168,6 +168,23 @@ def run_one(case):
             return memo[1]
         r = w.run(goal, 15.0)
         w.run(lambda: False, 1.2)          # let duplicates surface
+
+        def whole():
+            try:
+                rc.dec_stream(written(), strict_tail=True)
+                return True
+            except rc.RefDecodeError:
+                return False
+        if not whole():
+            # a write may be in flight (the node's own watchdog request, a delayed transport thread): the stream is judged when it
+            # is at a message boundary, or after 5 more virtual seconds
+            wm = [None, False]
+
+            def whole_memo():
+                if wm[0] != len(sock.outbox):
+                    wm[0], wm[1] = len(sock.outbox), whole()
+                return wm[1]
+            w.run(whole_memo, 5.0)
         out = written()
         info.update(steps=w.sched.steps, switches=w.sched.switches, line_switches=w.sched.line_switches, result=r,
                     partial_writes=sum(1 for a, b in sock.send_calls if 0 < b < a),
